@@ -12,6 +12,7 @@ import Revm.Proofs.EvmLinkStatic6
 import Revm.Proofs.EvmLinkTerm
 import Revm.Proofs.EvmLinkTotal4
 import Revm.Proofs.EvmLinkInit
+import Revm.Proofs.EvmLinkInterp8
 /-! C01Link — the whole-transaction model `Revm.Model.Evm.transact` (C01) SATISFIES the component properties.
 
 `Evm.transact` (EvmTx / EvmFrame / EvmLoop / EvmHost) was written independently of the component models that carry the
@@ -1001,5 +1002,53 @@ example : WOk sampleWorld := wok_fresh sampleWorld 17 (fun _ => false) rfl (by
   subst hp
   show (10 : Nat)^18 < W
   rw [W_val]; decide)
+
+/-! ### C25's per-frame invariant through `run_the_loop`: the interpreter-side panics are excluded
+
+`Proofs/EvmLinkInterp*.lean`: the loop invariant `LI` is extended by `SI` — every frame on the stack satisfies C25's
+`Inv`; a frame's memory is a context opened on top of the memory its parent had when it handed out the action, and the
+return window of a waiting CALL lies in the parent's memory; the checkpoint of the frame at height `k` is at most
+`k · 2^43` (the memory cost of a frame is not saturated — the measures of all frames add up to at most `u64::MAX - 1`,
+since an action hands the child gas the parent paid for — so its context is at most 2^43 bytes, and there are at most
+1025 frames: the shared buffer stays below 2^62); every code in the store and every recorded precompile output is a
+Rust `Bytes` (at most `isize::MAX` bytes). With it no `Interp.step` faults (C25 `execInstr_good`), `insert_*_outcome`
+never faults (C25 `insertCall_sat` / `insertCreate_sat`, on the memory `free_context` gives back: C11's
+`insertCallOutcome_mem`), `free_context` never fails. -/
+
+/-- the residual class that remains: the EOFCREATE action (an artefact of the legacy-only model) and the fuel -/
+theorem resid3_iff (e : Err) :
+    Resid3 e ↔ (e = .panic "unsupported: Action.eofCreate (EOF frames are not modelled)" ∨ e = .outOfFuel) := Iff.rfl
+
+/-- COROLLARY (`transact_total`, with the interpreter-side panics excluded): on a well-formed world between two
+transactions whose code store and precompile oracle hold Rust `Bytes` (`WTyped`), for an environment whose calldata is
+a `Bytes` and whose gas limit is a `u64` below `u64::MAX` (`ETyped`), for every fork, with `2 · gas_limit + 2` units of
+fuel or more, `Evm.transact` returns a result on a well-formed world, or fails softly (`Soft`: code-store miss,
+precompile panic, oracle miss, fatal database error), or with the EOFCREATE action. NEVER `interpreter: …`,
+`insert outcome: …`, `free_context`, nor "out of fuel". -/
+theorem transact_total_partial' (pco : PcOut) (hout : OutB) (hin : InB) (fuel : Nat) (w : World) (e : Evm.Env)
+    (spec : Nat) (h : WOk w) (hw : WTyped w) (he : ETyped e) (hf : 2 * e.tx.gasLimit + 2 ≤ fuel) :
+    (∃ o w', Evm.transact fuel w e spec = .ok (o, w') ∧ WOk w') ∨
+    (∃ err, Evm.transact fuel w e spec = .error err ∧
+      (Soft err ∨ err = .panic "unsupported: Action.eofCreate (EOF frames are not modelled)")) := by
+  have h1 := transact_tot3 pco hout hin fuel w e spec h hw he
+  have h2 := transact_terminates' fuel w e spec hf
+  cases hx : Evm.transact fuel w e spec with
+  | ok p => rw [hx] at h1; exact Or.inl ⟨p.1, p.2, rfl, h1⟩
+  | error err =>
+    rw [hx] at h1
+    refine Or.inr ⟨err, rfl, ?_⟩
+    rcases h1 with h1 | h1 | h1
+    · exact Or.inl h1
+    · exact Or.inr h1
+    · exact absurd (by rw [hx, h1]) h2
+
+/-- non-vacuity: the sample world and environment are typed -/
+example : WTyped sampleWorld where
+  store := by
+    constructor
+    · intro p hp; cases hp
+    · intro p hp; cases hp
+  depth := rfl
+example : ETyped sampleEnv := ⟨Nat.zero_le _, by show 21000 ≤ U64 - 2; rw [U64_val]; decide⟩
 
 end Revm.Props.C01Link
